@@ -44,6 +44,10 @@ type Obs struct {
 	ReadErrs []string  `json:"read_errs"`
 }
 
+var clockReads int
+
+const clockStep = 1001001001 * time.Nanosecond
+
 var nowPinned = time.Date(2024, 3, 5, 6, 7, 8, 123456789, time.UTC)
 
 func markIdx(d *Desc) int {
@@ -66,7 +70,13 @@ func run(in Input) (o Obs) {
 		registerGen(in.Type, in.Spec)
 	}
 	d := descOf(in.Type)
-	db, _, sqlDB, err := gdb.Open(gdb.Opt{NoReturning: in.NoRet, Config: &gorm.Config{NowFunc: func() time.Time { return nowPinned }}})
+	db, _, sqlDB, err := gdb.Open(gdb.Opt{NoReturning: in.NoRet, Config: &gorm.Config{NowFunc: func() time.Time {
+		// a moving clock: every reading is clockStep later than the previous one
+		t := nowPinned.Add(time.Duration(clockReads) * clockStep)
+		clockReads++
+		return t
+	}}})
+	clockReads = 0
 	if err != nil {
 		panic(err)
 	}
@@ -110,14 +120,19 @@ func run(in Input) (o Obs) {
 		}()
 		switch in.Op {
 		case "struct":
+			recs := make([]reflect.Value, n)
 			for i, r := range in.Recs {
-				rec := reflect.New(d.t)
-				d.buildRec(rec, r)
-				d.buildExtra(rec, xrec(in, i))
-				if err := db.Create(rec.Interface()).Error; err != nil && o.Err == "" {
+				recs[i] = reflect.New(d.t)
+				d.buildRec(recs[i], r)
+				d.buildExtra(recs[i], xrec(in, i))
+				if err := db.Create(recs[i].Interface()).Error; err != nil && o.Err == "" {
 					o.Err = err.Error()
 				}
-				o.After[i] = d.canonRec(rec)
+			}
+			// every record is looked at after ALL creates: an earlier record must not change when
+			// a later one is created
+			for i := range recs {
+				o.After[i] = d.canonRec(recs[i])
 			}
 		case "slice", "batches":
 			sl := reflect.New(reflect.SliceOf(d.t))
@@ -197,7 +212,7 @@ func run(in Input) (o Obs) {
 				for j, f := range d.Fields {
 					after[j] = vAbsent
 					keys := []string{f.Col, f.field.Name}
-					if f.PK {
+					if f.HPK {
 						keys = append(keys, "@id")
 					}
 					for _, key := range keys {
@@ -306,7 +321,7 @@ func run(in Input) (o Obs) {
 			keyed := make([]Val, len(d.Fields))
 			for j, f := range d.Fields {
 				keyed[j] = vAbsent
-				if f.PK {
+				if f.HPK {
 					keyed[j] = o.After[i][j]
 					if keyed[j].T == "absent" || keyed[j].eq(zeroVal(f.Kind)) {
 						keyOK = false
